@@ -22,7 +22,8 @@ where
 
     #[inline]
     fn count(h: usize, start: usize) -> usize {
-        h - start + 1
+        // An empty window has `start == h + 1`: the count is 0, not an underflow.
+        (h + 1).saturating_sub(start)
     }
 
     #[inline]
